@@ -238,14 +238,24 @@ pub fn clipboard_bytes(x: i32, y: i32, w: u32, h: u32, cells: &[CellM], tag: u8)
 
 #[derive(Default)]
 pub struct Interp {
-    pub guards: Vec<AtomicUndoGuard>,
+    /// ManuallyDrop: AtomicUndoGuard::drop locks the undo stack and panics when the lock is poisoned; if that happened while
+    /// another panic unwinds through the harness the process would abort, so guards are only ever dropped explicitly
+    pub guards: Vec<std::mem::ManuallyDrop<AtomicUndoGuard>>,
 }
 
 impl Interp {
     /// close every open atomic group (innermost first)
     pub fn close_all(&mut self) {
-        while let Some(g) = self.guards.pop() {
-            drop(g);
+        let mut first_panic = None;
+        while let Some(mut g) = self.guards.pop() {
+            // each guard on its own: a panicking drop must not take the remaining guards down with it
+            let r = std::panic::catch_unwind(std::panic::AssertUnwindSafe(|| unsafe { std::mem::ManuallyDrop::drop(&mut g) }));
+            if let Err(e) = r {
+                first_panic.get_or_insert(e);
+            }
+        }
+        if let Some(e) = first_panic {
+            std::panic::resume_unwind(e);
         }
     }
 
@@ -379,7 +389,7 @@ impl Interp {
             Op::BeginAtomic => {
                 if self.guards.len() < 3 {
                     let g = st.begin_atomic_undo("harness group");
-                    self.guards.push(g);
+                    self.guards.push(std::mem::ManuallyDrop::new(g));
                 }
                 (Ok(()), none)
             }
@@ -388,7 +398,8 @@ impl Interp {
                     if *explicit {
                         g.end();
                     }
-                    drop(g);
+                    // not reached (and the guard leaked) if end() panicked
+                    unsafe { std::mem::ManuallyDrop::drop(&mut g) };
                 }
                 (Ok(()), none)
             }
